@@ -280,6 +280,80 @@ theorem linear_curve_position_err_float32_partial (fuel : Nat) (mode : GameMode)
     · rw [hk1]; exact hmem p0 (List.mem_of_getElem? hk0)
 
 end New
+/-! ## non-vacuity: control points `(100,200) L, (107,224), (100,200)` → the demo curve, kernel-evaluated -/
+
+section Examples
+
+def linCps : List (PathControlPoint Float32) :=
+  [⟨demoPP, some PathType.linear⟩, ⟨demoPE, none⟩, ⟨demoPP, none⟩]
+
+theorem linCps_allLinear : AllLinear linCps := by
+  intro cp hcp t ht
+  simp only [linCps, List.mem_cons, List.not_mem_nil, or_false] at hcp
+  rcases hcp with rfl | rfl | rfl
+  · cases ht; rfl
+  · cases ht
+  · cases ht
+
+theorem linCps_bounded : ∀ cp ∈ linCps, Bounded19 cp.pos := by
+  intro cp hcp
+  simp only [linCps, List.mem_cons, List.not_mem_nil, or_false] at hcp
+  rcases hcp with rfl | rfl | rfl
+  · exact demo_bounded _ (by simp [demoPath])
+  · exact demo_bounded _ (by simp [demoPath])
+  · exact demo_bounded _ (by simp [demoPath])
+
+theorem linCps_finite : ∀ cp ∈ linCps, FinitePos cp.pos := by
+  intro cp hcp
+  simp only [linCps, List.mem_cons, List.not_mem_nil, or_false] at hcp
+  rcases hcp with rfl | rfl | rfl
+  · exact demo_finitePos _ (by simp [demoPath])
+  · exact demo_finitePos _ (by simp [demoPath])
+  · exact demo_finitePos _ (by simp [demoPath])
+
+attribute [local instance] C16.trigStub32
+
+/-- equality of `f32` positions is decidable coordinate-wise (for the kernel evaluation below only). -/
+@[instance_reducible] def posDecEq32 : DecidableEq (Pos Float32) := fun a b =>
+  decidable_of_iff (a.x = b.x ∧ a.y = b.y) (by
+    cases a; cases b
+    simp only [Pos.mk.injEq])
+attribute [local instance] posDecEq32
+
+/-- `Curve::new` on the demo control points (osu! mode, fuel 10, fresh buffers, no requested length) returns the demo curve
+of Props/C19IeeeSearch.lean: path `(100,200), (107,224), (100,200)`, lengths `[0, 25, 50]`. -/
+theorem linCps_curve : ∃ c b', Curve.new 10 GameMode.osu linCps none ({} : CurveBuffers Float32 Float) = .ok (c, b') ∧
+    c.path = demoPath ∧ c.lengths = demoLens := by
+  have key : ((Curve.new 10 GameMode.osu linCps none ({} : CurveBuffers Float32 Float)).toOption.map
+      fun r => decide (r.1.path = demoPath ∧ r.1.lengths = demoLens)) = some true := by decide +kernel
+  cases h : Curve.new 10 GameMode.osu linCps none ({} : CurveBuffers Float32 Float) with
+  | error e => rw [h] at key; simp [Except.toOption] at key
+  | ok r =>
+    rw [h] at key
+    obtain ⟨c, b'⟩ := r
+    simp [Except.toOption] at key
+    exact ⟨c, b', rfl, key.1, key.2⟩
+
+/-- every hypothesis of `linear_curve_position_err_float32_partial` holds on the demo control points, progress `0.2`. -/
+example : ∃ c b', Curve.new 10 GameMode.osu linCps none ({} : CurveBuffers Float32 Float) = .ok (c, b') ∧
+    c.path = demoPath ∧ c.lengths = demoLens ∧
+    ∃ (p : Pos Float32) (k : Nat) (p0 p1 : Pos Float32) (w : ℚ),
+      positionAt c.path c.lengths 0.2 = .ok p ∧
+      c.path[k]? = some p0 ∧ (c.path[k + 1]? = some p1 ∨ p1 = p0) ∧
+      (∃ cp ∈ linCps, cp.pos = p0) ∧ (∃ cp ∈ linCps, cp.pos = p1) ∧ 0 ≤ w ∧ w ≤ 1 ∧
+      |toRat32 p.x - (toRat32 p0.x + w * (toRat32 p1.x - toRat32 p0.x))| < 1 / 4 ∧
+      |toRat32 p.y - (toRat32 p0.y + w * (toRat32 p1.y - toRat32 p0.y))| < 1 / 4 := by
+  obtain ⟨c, b', h, hp, hls⟩ := linCps_curve
+  refine ⟨c, b', h, hp, hls, ?_⟩
+  refine linear_curve_position_err_float32_partial 10 GameMode.osu linCps {} b' c 0.2 linCps_allLinear (by simp [linCps])
+    linCps_bounded linCps_finite h ?_ (by decide +kernel)
+  intro x hx
+  rw [hls] at hx
+  cases hx
+  decide +kernel
+
+end Examples
+
 end FloatSec
 
 end Rosu.C19
